@@ -65,6 +65,7 @@ type Track struct {
 	CapPaid    map[string]sdk.Int
 	CapBack    map[string]sdk.Int
 	RwBlocks   int64
+	BytesPerCoin int64
 }
 
 func newTrack() *Track {
